@@ -27,7 +27,8 @@ DECL_INTENTS = ['base_type', 'derived_type', 'dup_dimension', 'scaled_unit',
                 'term_unit', 'wrong_dim_term', 'derive_unit', 'derive_bad',
                 'plain_unit', 'currency_reg', 'currency_new', 'dup_symbol',
                 'empty_symbol', 'wrong_type_scaled']
-OWN_INTENTS = ['bad_currency', 'bad_type', 'reuse', 'conv_new',
+OWN_INTENTS = ['bad_currency', 'bad_type', 'scaled_on_noref', 'reuse',
+               'conv_new',
                'conv_update', 'conv_update_bad', 'evict']
 PROBE_DATES = ['2024-02-29', '2024-03-01', '2023-02-28', '1999-12-31']
 
@@ -53,6 +54,7 @@ def gen(seed, run, tier='quick'):
         'wrong_type_scaled': rng.choice([0, 1]),
         'bad_currency': rng.choice([0, 1, 2]),
         'bad_type': rng.choice([0, 1, 2]),
+        'scaled_on_noref': rng.choice([0, 1, 2]),
         'reuse': rng.choice([2, 4, 6]),
         'conv_new': rng.choice([0, 1, 2]),
         'conv_update': rng.choice([0, 2, 4]),
@@ -193,6 +195,24 @@ def resolve(st: State, op):
         return {'a': 'derived_type', 'name': f'D{n}', 'items': [],
                 'style': 3, 'ref_sym': f'r{n}', 'auto_ref': False,
                 'quantum': None, 'expect': 'reject', 'bad': 'not_a_term'}
+    if kind == 'scaled_on_noref':
+        # 'k * unit' as definition of a unit of a type WITHOUT reference
+        # unit: whatever the library makes of it (the documentation says
+        # such units "can just be instantiated without giving a
+        # definition"), a rejection must leave nothing behind
+        cands = [tn for tn in model.order if model.types[tn]['base']
+                 and model.types[tn]['ref'] is None
+                 and not model.types[tn]['money']
+                 and model.types[tn]['units']]
+        tn = decl._pick(cands, r[0])
+        if tn is None:
+            return None
+        k = [{'t': 'int', 'v': '1'}, {'t': 'int', 'v': '1'},
+             {'t': 'int', 'v': '3'}, {'t': 'dec', 'v': '0.5'}][r[2] % 4]
+        return {'a': 'scaled_unit', 'type': tn, 'sym': f'u{n}',
+                'parent': decl._pick(model.types[tn]['units'], r[1]),
+                'k': k, 'via': 'rmul', 'expect': 'follow', 'noref': True,
+                'bad': 'scaled_unit_on_type_without_reference_unit'}
     if kind == 'reuse':
         # a *valid* declaration that wants the symbol (or dimension) of an
         # earlier rejected one
@@ -328,6 +348,8 @@ def note_outcome(st: State, act, accepted, info):
             c = st.convs[act['conv']]
             if c['kind'] is None:
                 c['kind'] = _kind_of(act['validity'])
+        elif act.get('noref'):
+            model.add_unit(act['sym'], act['type'], None, 'plain')
         elif a != 'evict':
             decl.apply(model, act, info)
         return
